@@ -29,10 +29,10 @@ const (
 	// c17LoopTimeout is the query timeout of the plain upstreams: what a
 	// silent upstream costs in real time.  An answering server replies at
 	// once, so it only has to beat scheduling noise.
-	c17LoopTimeout = 300 * time.Millisecond
+	c17LoopTimeout = 1 * time.Second
 	// c17InitDuration is HealthcheckInitDuration: long enough for every
 	// main to be probed even when all of them are silent.
-	c17InitDuration = 5 * time.Second
+	c17InitDuration = 15 * time.Second
 )
 
 // c17LoopReq is one request seen by a loopback server.
